@@ -123,6 +123,10 @@ def cases(tier, seed):
             opts['verbose'] = rng.randint(1, 3)
         if rng.random() < 0.1:
             opts['buffer'] = True
+        if rng.random() < 0.07:
+            # -D: post-mortem debugging (its own per-test loop); the
+            # debugger is answered "c" by a scripted stdin
+            opts['pm'] = True
         py = None
         pcli = 0.012 if tier == 'quick' else 0.08
         if rng.random() < pcli:
@@ -130,6 +134,20 @@ def cases(tier, seed):
         out.append({'seq': list(seq), 'idx': idx, 'opts': opts,
                     'wseed': rng.randrange(1 << 30), 'python': py})
     return out
+
+
+class ScriptedStdin:
+    def readline(self):
+        return 'c\n'
+
+    def read(self, *a):
+        return ''
+
+    def isatty(self):
+        return False
+
+    def close(self):
+        pass
 
 
 def run_case(case):
@@ -141,12 +159,22 @@ def run_case(case):
     py = case.get('python')
     if py and not os.path.exists(py):
         py = None
-    if py:
-        w = common.run_world(spec, None, opts, mode='cli', python=py)
+    ropts = {k: v for k, v in opts.items() if k != 'pm'}
+    if py and not opts.get('pm'):
+        w = common.run_world(spec, None, ropts, mode='cli', python=py)
+    elif opts.get('pm'):
+        py = None
+        w = common.run_world(spec, None, ropts, extra_argv=['-D'],
+                             stdin=ScriptedStdin())
     else:
-        w = common.run_world(spec, None, opts)
-    counters = {'runs': 1, 'cli_other_python': 1 if py else 0}
+        w = common.run_world(spec, None, ropts)
+    counters = {'runs': 1, 'cli_other_python': 1 if py else 0,
+                'post_mortem_runs': 1 if opts.get('pm') else 0}
     viol = []
+    if w.raised is not None and opts.get('pm') and \
+            type(w.raised).__name__ in ('EndRun', 'SystemExit'):
+        # -D ends the run after the first debugged failure
+        w.raised = None
     if w.raised is not None:
         viol.append({'rule': 'run-aborted', 'mech': 'run-raised',
                      'detail': {'tb': (w.raised_tb or '')[-800:],
